@@ -19,6 +19,8 @@ ASSUMPTIONS = ["reprlib / the user's a_repr is a function of the value (A-repr)"
                "conditions are side-effect free; CPython's evaluation order is what the AST instrumentation observes",
                "asttokens source-text recovery is exercised (line keys are compared after parsing), not modelled"]
 WORKERS = None
+NEIGHBOURS = [{"from": "C13", "limit": 400, "why": "messages of async callables list the same values"},
+              {"from": "C09", "limit": 400, "why": "values available to messages and error factories"}]
 
 
 def cases(tier, rng):
